@@ -152,6 +152,32 @@ static void order_case(void) {
       lp_polynomial_delete(R);
       for (int t = 0; t < 3; ++t) emit_check(&o[t]);
     }
+    else if (k < 4 && chance(40)) {
+      /* a result delivered into an EXTERNAL target through a temporary and a swap (get_coefficient, psc, reduce_degree_Zp):
+         the target is still external afterwards, so it follows the next order change by itself */
+      int i = chance(50) ? 0 : 2;
+      lp_polynomial_t* T = rnd_poly(r); lp_polynomial_set_external(T);
+      unsigned w = rnd(ri == 0 ? 2 : 3);
+      lp_polynomial_t* dA = lp_polynomial_new(octx[r]); lp_polynomial_derivative(dA, o[i].p);
+      if (w == 1 && (lp_polynomial_is_constant(o[i].p) || lp_polynomial_is_constant(dA) || lp_polynomial_top_variable(dA) != lp_polynomial_top_variable(o[i].p))) w = 0;
+      if (w == 0) lp_polynomial_get_coefficient(T, o[i].p, lp_polynomial_is_constant(o[i].p) ? 0 : rnd(lp_polynomial_degree(o[i].p) + 1));
+      else if (w == 1) {
+        size_t sz = lp_polynomial_degree(dA) + 1;
+        lp_polynomial_t** out = (lp_polynomial_t**)malloc(sz * sizeof(lp_polynomial_t*));
+        for (size_t j = 0; j < sz; ++j) out[j] = j == 0 ? T : lp_polynomial_new(octx[r]);
+        lp_polynomial_psc(out, o[i].p, dA);
+        for (size_t j = 1; j < sz; ++j) lp_polynomial_delete(out[j]);
+        free(out);
+      } else lp_polynomial_reduce_degree_Zp(T, o[i].p);
+      lp_polynomial_delete(dA);
+      o[i].L = cur;
+      order_mutate();
+      lp_polynomial_t* F = rebuild(T, r);
+      emit_eqhash(T, F, ri);
+      { obj t; t.p = T; t.L = cur; t.external = 1; t.ri = ri; emit_check(&t); }
+      lp_polynomial_delete(F); lp_polynomial_delete(T);
+      for (int t = 0; t < 3; ++t) emit_check(&o[t]);
+    }
     else if (k < 4) { order_mutate(); for (int i = 0; i < 3; ++i) emit_check(&o[i]); }
     else if (k < 6) { /* arithmetic under the current order */
       int i = (int)rnd(3), j = (int)rnd(3);
